@@ -25,6 +25,13 @@ CHECKS = {
             "randn must derive from a parameter, PRNGKey(constant) or next_key; loop-carried keys must advance; PRNGKey/next_key must depend on their argument; "
             "the Hutchinson loop has a cap conjunct and a +1 counter. Of unbiasedness only the probe/estimator conjugation agreement is decided.",
             "Statistical unbiasedness, variance and the Rademacher-exactness claim are not decided. Exceptional exits inside a bracket are ignored.", "4/C17"),
+    "C18": ("ownership / effect analysis: flow-sensitive origins of every in-place write target, parameter-write and return-alias summaries to a fixpoint over the resolved call graph",
+            "Full for non-mutation: every in-place write site in cola/ (update_array on numpy/torch, augmented assignment, subscript/attribute store, out=, mutating methods, "
+            "setattr) is classified by where its target's storage comes from; no public entry point may carry a parameter-write summary; products are treated as possibly "
+            "returning their operand (Identity._matmat does); attribute stores and mutating calls on representation-relevant operator attributes outside constructors are "
+            "violations; the annotation wrapper must build a new object and a new set. Flatten/unflatten: writer/reader encoding agreement is decided, the history clause is not.",
+            "Trusted: backend freshness table in sa/own.py (XNP_FRESH / XNP_VIEW), the named exclusions (module-namespace plumbing, torch ctx, the update_array primitives). "
+            "The registry-history clause of flatten depends on runtime values and is not decided.", "4/C18"),
 }
 
 NOT_APPLICABLE = {
